@@ -1,4 +1,5 @@
 """Per-property streams, gating projections and oracles (DESIGN.md §7)."""
+from concurrent.futures import ThreadPoolExecutor
 import itertools, json, os, random, re, time
 from . import common as C
 from . import gen as G
@@ -1810,29 +1811,61 @@ def timing_inputs(n, kind):
     return "#EXTM3U\n#EXT-X-TARGETDURATION:10\n" + body
 
 
+def _instructions(line):
+    """instructions executed by the real runner on one request (valgrind cachegrind, no cache simulation); None if unavailable"""
+    import shutil, subprocess
+    if not shutil.which("valgrind"):
+        return None
+    try:
+        p = subprocess.run(["valgrind", "--tool=cachegrind", "--cache-sim=no", "--cachegrind-out-file=/dev/null", C.IMPL],
+                           input=(line + "\n").encode(), stdout=subprocess.PIPE, stderr=subprocess.PIPE, timeout=900)
+    except Exception:
+        return None
+    m = re.search(rb"I\s+refs:\s+([\d,]+)", p.stderr)
+    if not m or not p.stdout.startswith(b"ok "):
+        return None
+    return int(m.group(1).replace(b",", b""))
+
+
 def c05_timing(ctx):
-    """supporting evidence (not a theorem): growth of the running time of the real parser+writer"""
+    """supporting evidence (not a theorem): growth of the work of the real parser+writer on inputs of doubling size.
+    The growth is measured in executed instructions (deterministic up to < 1 %), the wall clock only bounds the absolute time."""
     out = {}
     viol = []
-    base = 250 if ctx.quick else 500
-    for kind, limit in (("bounded-keys", 10.0), ("unbounded-keys", 40.0), ("long-attribute-list", 10.0), ("quotes-and-separators", 10.0)):
-        ts = []
-        for n in (base, base * 2, base * 4):
-            text = timing_inputs(n, kind)
-            best = None
-            for _ in range(3):
-                o = C.run_many(C.IMPL, [C.req("time", text, "rt_media")], 1)[0]
-                us = int(o.split(" ")[1]) if o.startswith("ok ") else None
-                if us is not None:
-                    best = us if best is None else min(best, us)
-            ts.append((n, len(text), best))
-        out[kind] = [{"n": n, "bytes": b, "microseconds": t} for n, b, t in ts]
-        t1, t4 = ts[0][2], ts[2][2]
-        if t1 and t4 and t1 > 2000:
-            ratio = t4 / t1
-            out[kind].append({"ratio_4x": round(ratio, 2), "limit": limit})
-            if ratio > limit:
-                viol.append("%s: 4x input takes %.1fx the time (limit %.0f)" % (kind, ratio, limit))
+    base = 200 if ctx.quick else 400
+    kinds = (("bounded-keys", "linear"), ("unbounded-keys", "quadratic"), ("long-attribute-list", "linear"), ("quotes-and-separators", "linear"))
+    limits = {"linear": 5.5, "quadratic": 24.0}          # 4x the input: 4x / 16x the work, with slack; 8x / 64x would be the next power
+    startup = _instructions(C.req("time", timing_inputs(1, "bounded-keys"), "rt_media"))
+
+    def one(kind, n):
+        text = timing_inputs(n, kind)
+        line = C.req("time", text, "rt_media")
+        o = C.run_many(C.IMPL, [line], 1)[0]
+        us = int(o.split(" ")[1]) if o.startswith("ok ") else None
+        ins = _instructions(line) if startup is not None else None
+        return (n, len(text), us, None if ins is None else max(ins - startup, 1))
+    jobs = [(k, n) for k, _ in kinds for n in (base, base * 2, base * 4)]
+    with ThreadPoolExecutor(max_workers=min(len(jobs), C.NCPU)) as ex:
+        res = list(ex.map(lambda kn: one(*kn), jobs))
+    for idx, (kind, growth) in enumerate(kinds):
+        ts = res[idx * 3: idx * 3 + 3]
+        out[kind] = [{"n": n, "bytes": b, "microseconds": t, "instructions": i} for n, b, t, i in ts]
+        i1, i4 = ts[0][3], ts[2][3]
+        if i1 and i4:
+            ratio = i4 / i1
+            out[kind].append({"work_ratio_4x": round(ratio, 2), "limit": limits[growth], "expected_growth": growth, "unit": "instructions"})
+            if ratio > limits[growth]:
+                viol.append("%s: 4x the input takes %.1fx the instructions (limit %.1f for %s growth)" % (kind, ratio, limits[growth], growth))
+        else:
+            # no valgrind: wall clock with wide limits (noise, cache effects)
+            t1, t4 = ts[0][2], ts[2][2]
+            lim = {"linear": 12.0, "quadratic": 60.0}[growth]
+            if t1 and t4 and t1 > 2000:
+                ratio = t4 / t1
+                out[kind].append({"time_ratio_4x": round(ratio, 2), "limit": lim, "unit": "wall clock (valgrind not available)"})
+                if ratio > lim:
+                    viol.append("%s: 4x the input takes %.1fx the time (limit %.0f)" % (kind, ratio, lim))
+        t4 = ts[2][2]
         if t4 and t4 > 20_000_000:
             viol.append("%s: %d bytes took %.1f s" % (kind, ts[2][1], t4 / 1e6))
     return out, viol
